@@ -192,6 +192,49 @@ def oracle_pattern(case, ctx):
     ctx.ev.case(case, nt=any(bits), classes=[f'view{h}x{w}'])
 
 
+# ------------------------------------------------------------------ (c) large views (ray counts beyond small-integer ranges)
+
+LARGE = {'quick': [(9, 9), (11, 11), (13, 13), (15, 15)], 'thorough': [(9, 9), (11, 11), (13, 13), (15, 15), (17, 17), (7, 31), (31, 7), (21, 21), (15, 31)]}
+
+
+def enum_large(tier, shard, nshards):
+    i = 0
+    for (h, w) in LARGE[tier]:
+        for k in range(4 if tier == 'quick' else 8):
+            i += 1
+            if i % nshards == shard:
+                yield {'h': h, 'w': w, 'k': k}
+
+
+def oracle_large(case, ctx):
+    h, w, k = case['h'], case['w'], case['k']
+    # k = 0: empty view; otherwise a sparse deterministic wall pattern (no RNG of our own)
+    rows = [['W' if k and ((i * 7 + j * 13 + k * 5) % (5 + k) == 0) else 'F' for j in range(w)] for i in range(h)]
+    pos = (h - 1, w // 2)
+    rows[pos[0]][pos[1]] = 'F'
+    for f in OCC:
+        sh, arr = vis_of(f, rows, pos)
+        sig = {'kind': 'occlusion_large', 'f': f}
+        if pos not in sh:
+            ctx.fail(f"{f}: the agent's own cell is hidden in a {h}x{w} view (pattern {k})", sig)
+        reach = linked(sh, lambda c: rows[c[0]][c[1]] == 'F', pos)
+        if sh - reach:
+            ctx.fail(f'{f}: cells {sorted(sh - reach)[:4]} visible without a chain of visible transparent cells in a {h}x{w} view (pattern {k})', sig)
+        if k == 0 and len(sh) != h * w:
+            ctx.fail(f'{f}: an unobstructed {h}x{w} view hides {h * w - len(sh)} cells', sig)
+    det, _ = vis_of('raytracing', rows, pos)
+    g = objs.build_grid(rows)
+    lit_arr = VIS['raytracing'](g, Position(*pos), absolute_counts=False, threshold=1.0)
+    lit = {(i, j) for i in range(h) for j in range(w) if bool(lit_arr[i, j])}
+    if pos not in lit:
+        ctx.fail(f'relative ray-traced view (threshold 1.0) hides the own cell in a {h}x{w} view', {'kind': 'occlusion_large', 'f': 'raytracing'})
+    sv = VIS['stochastic_raytracing'](g, Position(*pos), rng=make_rng(k))
+    s = {(i, j) for i in range(h) for j in range(w) if bool(sv[i, j])}
+    if s - det or lit - s:
+        ctx.fail(f'stochastic_raytracing outside its deterministic bounds in a {h}x{w} view (pattern {k}): extra {sorted(s - det)[:3]}, missing {sorted(lit - s)[:3]}', {'kind': 'stochastic_bounds'})
+    ctx.ev.case(case, nt=True, classes=[f'view{h}x{w}'])
+
+
 CHECKS = [
     Check('non_interference', oracle, strategy=strat, examples={'quick': 900, 'thorough': 2500}, shards={'quick': 4, 'thorough': 16},
           rule='state x area x {partially_occluded, raytracing}: replacing hidden / out-of-view world cells (one at a time with objects of either opacity, and all at once) leaves the observation unchanged; '
@@ -200,4 +243,6 @@ CHECKS = [
     Check('opacity_patterns', oracle_pattern, enumerate=enum_patterns, shards={'quick': 8, 'thorough': 16}, exhaustive=True,
           rule='all wall/floor patterns of views 1x1,1x3,2x3,3x3,2x5,4x3 (thorough: up to 3x5/5x3/2x7 = 2^15 patterns) at visibility-function level, agent at the bottom centre: '
                'own cell, linkage, flipping any hidden cell, clearing any visible opaque cell, stochastic bounds'),
+    Check('large_views', oracle_large, enumerate=enum_large, shards={'quick': 8, 'thorough': 16},
+          rule='views 9x9..15x15 (thorough: up to 21x21, 7x31, 31x7, 15x31) empty and with sparse wall patterns: own cell, linkage, unobstructed view shows everything, stochastic bounds'),
 ]
